@@ -1,13 +1,11 @@
 #!/bin/bash
-# Parallel variant of seedtable.sh: every seed gets its own scratch worktree of /repo and its own
-# scratch verif directory, so /repo and /verif/evidence are not touched.  usage: tools/seedtable_par.sh [jobs]
-jobs=${1:-3}
+# Add (or replace) the rows of selected seeds in seeded/RESULTS.md without re-running the others.
+# usage: tools/seedtable_add.sh <jobs> <seed-id>...   (same scratch-worktree scheme as seedtable_par.sh)
+jobs=$1; shift
 cd /verif
-out=seeded/RESULTS.md
-work=$(mktemp -d /tmp/stpar.XXXXXX)
+work=$(mktemp -d /tmp/stadd.XXXXXX)
 one() {
-  d=$1; work=$2
-  id=$(basename $d)
+  id=$1; work=$2; d=seeded/$id
   prop=$(python3 -c "import json;print(json.load(open('$d/meta.json'))['property'])")
   files=$(grep '^+++ ' $d/patch.diff | sed 's/+++ b\///' | tr '\n' ' ')
   wt=$work/wt_$id; vd=$work/v_$id
@@ -24,10 +22,17 @@ one() {
   rm -rf $vd
 }
 export -f one
-ls -d seeded/*/ | sed 's#/$##' | xargs -P $jobs -I{} bash -c "one {} $work"
-echo "| seed | property | change | obligations that fail (quick check) |" > $out
-echo "|---|---|---|---|" >> $out
-for d in $(ls -d seeded/*/ | sed 's#/$##'); do cat $work/$(basename $d).row >> $out 2>/dev/null; done
-git -C /repo worktree prune
-rm -rf $work
-grep -c MISSED $out
+printf '%s\n' "$@" | xargs -P $jobs -I{} bash -c "one {} $work"
+python3 - "$work" "$@" <<'PY'
+import sys,os
+work=sys.argv[1]; ids=sys.argv[2:]
+lines=open('/verif/seeded/RESULTS.md').read().rstrip('\n').split('\n')
+head,rows=lines[:2],{l.split('|')[1].strip():l for l in lines[2:]}
+for i in ids:
+    rows[i]=open(f'{work}/{i}.row').read().strip()
+order=sorted(d for d in os.listdir('/verif/seeded') if os.path.isdir('/verif/seeded/'+d))
+out=head+[rows[i] for i in order if i in rows]
+open('/verif/seeded/RESULTS.md','w').write('\n'.join(out)+'\n')
+print(len(out)-2,'rows')
+PY
+git -C /repo worktree prune; rm -rf $work
